@@ -222,6 +222,21 @@ class World:
                     state = doc
                 elif asked[-1] is None or asked[-1] < ABSENT_MAX:
                     state = ("absent",)
+                    # The date is reported by the code under test itself.  Cross-check on a second copy of
+                    # the disk: a server that answers "up to date" whatever it is asked makes the client hand
+                    # back whatever it holds.  A client that holds nothing must fail there.
+                    self.fs.root = root.clone()
+                    self.net.servers = {}
+                    clones2 = [fi.probe_clone(self.net, peers.B_UPTODATE) for fi in self.fis]
+                    try:
+                        data2 = self.make_client(ident).request_profile().read()
+                    except Exception:      # noqa - expected when nothing is cached
+                        data2 = None
+                    if data2 is not None:
+                        doc2 = self.read_profile_doc(data2)
+                        if doc2[0] == "profile":
+                            state = ("bad", f"asks the server with the 'no profile' date although it holds {doc2[1]} "
+                                            f"dated {doc2[2].isoformat()} (returned when told 'up to date')")
                 else:
                     if doc[2] != asked[-1]:
                         state = ("bad", f"asked with {asked[-1].isoformat()} but holds {doc[1]} dated {doc[2].isoformat()}")
